@@ -48,10 +48,12 @@ def kpM2eLoop : Nat → R → R → R → R → Option R
   | 0, _, _, _, _ => none
   | fuel + 1, e, M, X, X1 => kpM2eContinue X1 X (kpM2eLoop fuel e M X1 (kpM2eNext X1 e M)) (some X1)
 
-/-- `Form.M2E(e, M)` -/
+/-- `Form.M2E(e, M)`: prelude (the anomaly the iteration works on, the offset set aside), start value, Newton loop, result -/
 def kpM2e (fuel : Nat) (e M : R) : Option R :=
-  let X := kpM2eStart e M
-  kpM2eLoop fuel e M X (kpM2eNext X e M)
+  let off := kpM2eOffset e M
+  let Mr := kpM2eArg e M
+  let X := kpM2eStart e Mr
+  (kpM2eLoop fuel e Mr X (kpM2eNext X e Mr)).map (fun X1 => kpM2eResult e X1 off)
 
 def app6 (f : R → R → R → R → R → R → R → List R) (mu : R) : List R → List R
   | [c0, c1, c2, c3, c4, c5] => f mu c0 c1 c2 c3 c4 c5
